@@ -63,9 +63,29 @@ def oracle(op, pc, seq, optimal_structure):
     return [(i + 1, seq[i], q[i]) for i in range(n)]
 
 
+def _fast_solver():
+    """the MILP back-end is not the subject of C12: replace HiGHS/CBC by the in-process z3 solver stub (no subprocess)"""
+    import pulp
+    from vlib import e3
+    if getattr(pulp, "_verif_fast", False):
+        return
+
+    class NoHiGHS:
+        def __init__(self, *a, **k):
+            pass
+
+        def available(self):
+            return False
+    pulp.HiGHS_CMD = NoHiGHS
+    pulp.LpSolverDefault = e3.CaptureSolver()
+    pulp._verif_fast = True
+
+
 def body(p, opi, ident=None):
     from harness.e1_common import realize, deep_realize, NoTracing, log, known_keys
     from rnapolis.common import BpSeq, Entry
+    with NoTracing():
+        _fast_solver()
     n = realize(len(p))
     op = OPS[realize(opi)]
     seq = "".join(LETTERS[i % 26] for i in range(n))
@@ -98,17 +118,21 @@ def body(p, opi, ident=None):
             # 2. receiver unchanged
             if after[0] != want_entries or after[1] != want_pairs or after[2] != "\n".join(f"{a} {c} {d}" for a, c, d in want_entries):
                 problems.append((f"{op} changes the receiver: entries {[x[2] for x in after[0]]}, expected {pc}", f"{op}:mutates-receiver"))
-            # 3. every later answer equals a fresh object's answer (natively, on the same warm object)
+            # 3. every later answer equals a fresh object's answer: for every second operation, on a warm object that
+            #    has only seen `op` (so no other cache slot is filled), compared with the answer of a cold object
             try:
                 nb = fresh_native()
                 r1 = answer(op, nb)
                 if r1 != got:
                     problems.append((f"{op}: symbolic and native answers differ", "dual"))
-                for op2 in OPS:
-                    a2 = answer(op2, nb)
+                import os as _os
+                for op2 in (OPS if not _os.environ.get("VERIF_SIDELOG") else []):   # pair sweep: native mode only
+                    nb2 = fresh_native()
+                    answer(op, nb2)
+                    a2 = answer(op2, nb2)
                     f2 = answer(op2, fresh_native())
                     if a2 != f2:
-                        problems.append((f"after {op}, {op2} answers {a2!r} but a fresh copy answers {f2!r}", f"{op}:later-answer"))
+                        problems.append((f"after {op}, {op2} answers {a2!r} but a fresh copy answers {f2!r}", f"{op2}:after-{op}"))
                         break
                 # 4. operations on a returned structure must not reach back into the receiver
                 if op in ("without_pseudoknots", "without_isolated"):
@@ -143,11 +167,18 @@ def body_native(p):
     return ok
 
 
+def body_ladder(k):
+    """k mutually crossing pairs (needs k bracket levels): all nine operations"""
+    pc = [k + i + 1 for i in range(k)] + [i + 1 for i in range(k)]
+    return body_native(pc)
+
+
 def body_hist(p, h):
     """explicit call histories (thorough): the sequence of operation indices h on one object, each answer
     compared with a fresh copy's answer -- exercises the inductive argument on concrete interleavings"""
     from harness.e1_common import log, known_keys
     from rnapolis.common import BpSeq, Entry
+    _fast_solver()
     pc = list(p)
     n = len(pc)
     seq = "".join(LETTERS[i % 26] for i in range(n))
@@ -194,7 +225,7 @@ def run(rep, tier):
     from vlib import e1, allsat
     from vlib.e1 import Partition
     from harness import pairing_driver as pd
-    N1 = 6 if tier == "quick" else 7          # CrossHair-traced step
+    N1 = 5 if tier == "quick" else 7          # CrossHair-traced step
     N2 = 8 if tier == "quick" else 10         # native step (AllSAT)
     T = 900 if tier == "quick" else 3000
     parts = []
@@ -208,7 +239,7 @@ def run(rep, tier):
                                    expected=cnt * (1 if n > 4 else len(OPS))))
     parts.sort(key=lambda x: -(x.expected or 0))
     e1.run("harness.c12", parts, per_condition_timeout=T)
-    for n in range(N1 + 1, N2 + 1):
+    for n in range(1, N2 + 1):
         P, cons = allsat.pairing_vars(n)
         models, nq, dt = allsat.allsat(P, cons)
         rep.add(transitions=nq, solver_s=dt)
@@ -218,6 +249,9 @@ def run(rep, tier):
         pt = allsat.run_family(f"step_native_n{n}", "harness.c12", "body_native", [(m,) for m in models],
                                [f"every pairing on {n} positions", "all nine operations"], expected=exp * len(OPS), chunksize=8)
         parts.append(pt)
+    pt = allsat.run_family("ladders", "harness.c12", "body_ladder", [(k,) for k in range(1, 8)],
+                           ["k mutually crossing pairs, k = 1..7 (k bracket levels)", "all nine operations"], expected=None, chunksize=1)
+    parts.append(pt)
     # explicit histories: structures with isolated pairs / knots, all op sequences of length L over the 5 state-relevant ops
     L = 3 if tier == "quick" else 4
     core = [OPS.index(x) for x in ("str", "dot_bracket", "elements", "without_pseudoknots", "without_isolated", "all_dot_brackets")]
